@@ -44,6 +44,41 @@ def local_def_expr(fn, name):
     return d[1] if d else None
 
 
+def sym_index_ok(fn, site, idx_expr, lenv):
+    """The index of a store (i, or a post-incremented i++) is below the length parameter `lenv` on every
+    path: `i < lenv` was established and i has not been stepped since."""
+    e = idx_expr
+    inc_ev = None
+    if e.get('k') == 'un' and e['op'] == '++' and e.get('postfix') and is_var(e['e']):
+        iv, inc_ev = e['e']['name'], e.get('ev')
+    elif is_var(e):
+        iv = e['name']
+    else:
+        return False
+
+    def on_edge(st, ed):
+        r = rules.edge_rel(ed)
+        if r and is_var(r[0], iv) and r[1] == '<' and is_var(r[2], lenv):
+            return True
+        if r and is_var(r[0], iv) and r[1] == '>=' and is_var(r[2], lenv):
+            return False
+        return st
+
+    def on_event(st, t):
+        ev = t.ev
+        if ev['k'] == 'store' and is_var(ev.get('lhs')) and ev['lhs']['name'] in (iv, lenv):
+            return False
+        return st
+    before, _, _, _ = fn.forward(False, on_event, on_edge)
+    key = site.key
+    if inc_ev is not None:
+        for t in fn.sites():
+            if t.ev.get('id') == inc_ev:
+                key = t.key
+    sts = before.get(key, set())
+    return bool(sts) and sts <= {True}
+
+
 def param_pair_ok(P, fn, dst, lenv):
     """Idiom 8: every caller passes (array, sizeof array) for the (dst, len) parameter pair."""
     if dst not in fn.params or lenv not in fn.params:
@@ -58,7 +93,9 @@ def param_pair_ok(P, fn, dst, lenv):
             return False, 'short call at %s' % s.loc
         ex = extent_of(s.fn, a[di])
         n = const_of(a[li])
-        if ex is None or n is None or n > (ex[0] - ex[1]) * ex[2]:
+        # byte arrays are measured in bytes; arrays of wider elements by their element count
+        limit = None if ex is None else ((ex[0] - ex[1]) if ex[2] != 1 else (ex[0] - ex[1]))
+        if ex is None or n is None or n > limit:
             return False, 'caller at %s passes (%s, %s)' % (s.loc, sx(a[di]), sx(a[li]))
     return True, '%d caller(s) pass (array, sizeof array)' % len(sites)
 
@@ -365,6 +402,11 @@ def classify_store(P, fn, s, cache):
                     ok, why = param_pair_ok(P, fn, base['name'], lv)
                     if ok:
                         return '12 store at the clamp i < n ? i : n - 1', why
+        for lv in lens:
+            if sym_index_ok(fn, s, idx, lv):
+                ok, why = param_pair_ok(P, fn, base['name'], lv)
+                if ok:
+                    return '11 store dst[i] / dst[i++] under i < dst_len (parameter pair)', why
         if is_var(idx):
             for lv in lens:
                 g = [r for r in fn.guards(s.bid) if is_var(r[0], idx['name']) and r[1] == '<' and is_var(r[2], lv)]
